@@ -56,17 +56,7 @@ def compare(cp, tree, src):
     """(remaining differences, findings whose exact normaliser was needed)"""
     diffs = diff_trees(cp, tree)
     used = []
-    if diffs and not src.isascii():
-        if bytecols_to_charcols(cp, src):
-            d2 = diff_trees(cp, tree)
-            if len(d2) < len(diffs) or not d2:
-                used.append("F01e")
-            diffs = d2
-        if diffs and nfkc_identifiers(tree):
-            d3 = diff_trees(cp, tree)
-            if len(d3) < len(diffs) or not d3:
-                used.append("F01h")
-            diffs = d3
+    # (findings F01e - character columns - and F01h - identifiers not NFKC-normalised - had exact normalisers here until they were repaired)
     return diffs, used
 
 
